@@ -75,3 +75,46 @@ Example C06_conforming_record_emitted :
      {| rdict := [(s2l "a", c0); (s2l "b", c1)]; rlist := [Some c0; Some c1] |})
   = Some (s2l "7" ++ [TAB])%list.
 Proof. vm_compute. reflexivity. Qed.
+
+(* ---------- closed form: the `renders_back` premise discharged (proofs/RenderBack.v) ---------- *)
+From MafVerif Require Import proofs.RenderFacts proofs.RenderBack.
+
+(* For every column class of every built layout (finite sweep over the
+   regenerated tables, per-class lemmas for all values): a well-formed value
+   that validates and whose text has no TAB/CR/LF renders to a text the same
+   class accepts.  `wf_val` says the value is one python can hold: a float is
+   denoted by its repr, a UUID by its canonical text, an enum value is a member
+   (index in range), recursively in lists/tuples.  It cannot be dropped: the
+   model's validate only tests the constructor (isinstance), so VFloat "x"
+   validates and renders "x", which no float() accepts - renders_back_needs_wf. *)
+Theorem C06_renders_back_for_wellformed_values :
+  forall (Or : oracles) l, In l layouts_ok ->
+  forall j n sc r v, nth_error (l_cols l) j = Some (n, sc) -> resolve class_table sc = Some r ->
+    cls_value_invalid r v = false -> cls_text_has_sep r v = false -> wf_val Or v ->
+    exists t v', col_str r v = Ok t /\ field_outcome Or r t = Valid v'.
+Proof. exact built_layout_renders_back. Qed.
+Print Assumptions C06_renders_back_for_wellformed_values.
+
+(* C06 without the renders_back premise.  Remaining premises: the values are
+   well-formed python values, and every column object has exactly its scheme
+   class (without it: C06_subclass_substitution_refuted). *)
+Theorem C06_emitted_line_is_accepted_by_strict_reader_closed :
+  forall (Or : oracles) l (r : crec) line ln,
+    In l layouts_ok ->
+    (forall j c, nth_error (rlist r) j = Some (Some c) -> wf_val Or (v_val (cval c))) ->
+    (forall j n sc c, nth_error (l_cols l) j = Some (n, sc) -> nth_error (rlist r) j = Some (Some c) ->
+                      v_cls (cval c) = sc) ->
+    writer_emits (l_cols l) r = Some line ->
+    exists rec', from_line class_table Or Strict None (Some (l_cols l)) ln line = Ok (rec', []).
+Proof.
+  intros Or.
+  exact (emitted_line_is_accepted_closed class_table Or layouts_ok all_layouts_ok layouts_nonempty all_layouts_render_back).
+Qed.
+Print Assumptions C06_emitted_line_is_accepted_by_strict_reader_closed.
+
+Example C06_unrestricted_renders_back_is_false_in_the_model :
+  let r := get_r (resolve class_table (CSrc "FloatColumn")) in
+  let O0' := {| fval := fun _ => None; uval := fun _ => None |} in
+  cls_value_invalid r (VFloat (s2l "x")) = false /\ cls_text_has_sep r (VFloat (s2l "x")) = false /\
+  col_str r (VFloat (s2l "x")) = Ok (s2l "x") /\ field_outcome O0' r (s2l "x") = Invalid.
+Proof. exact renders_back_needs_wf. Qed.
